@@ -167,7 +167,12 @@ def plumbing(ctx):
         v = peel(r["args"][0]) if r.get("k") == "ctor" and r.get("args") else {}
         init = simple_let_init(gdefs, v["id"]) if v.get("k") == "local" else None
         chase = [l for l in gix.nodes if l.get("k") == "while" and gix.precedes(l, w) and not contains(l, w)]
-        okg = okg and init is not None and peel(init).get("k") == "local" and len(chase) >= 1 and any(gix.precedes(l, gdefs[v["id"]][1]) for l in chase)
+        noop = False
+        if init is not None:
+            i2 = strip_try(init)
+            # re-storing the value that is already there (m[x] = Some(m[x]?)) is a no-op
+            noop = i2.get("k") == "index" and is_local(i2["e"], GP.get("m")) and show(peel(i2["i"])) == show(peel(peel(w["l"])["i"]))
+        okg = okg and (noop or (init is not None and peel(init).get("k") == "local" and len(chase) >= 1 and any(gix.precedes(l, gdefs[v["id"]][1]) for l in chase)))
     ctx.inst("R13.2", "get_fixed_point:compression-writes-end-point", okg, g["span"], "path compression may only store the end point of the chain (the value reached by the chase loop): %s" % [show(w) for w in ws], sample=[show(w) for w in ws])
     rets = [n["e"] for n in gix.nodes if n.get("k") == "return" and "e" in n] + [stmts_of(g["body"])[-1]]
     ctx.inst("R13.2", "get_fixed_point:returns", all(peel(r).get("k") == "ctor" for r in rets), g["span"], "get_fixed_point must return Some(end point)", nontrivial=False)
